@@ -18,7 +18,7 @@ from .report import Obligation as RepOb, BASELINE
 
 CONTRACT_MODULES = ['contracts.idorder', 'contracts.filter_kernels', 'contracts.transform_kernel', 'contracts.err',
                     'contracts.validator', 'contracts.subsample_kernels',
-                    'contracts.table_methods', 'contracts.util_stats']
+                    'contracts.table_methods', 'contracts.util_stats', 'contracts.sparse_converters']
 
 REGISTRY = {}
 WORLDS = {}     # rel -> world factory
